@@ -707,8 +707,12 @@ func Run(plan Plan, watchdog time.Duration) (res *Result) {
 		// full buffer, progress stops): its purge and its end also fire a bounded
 		// number of loop turns after it began.
 		iter, onIter := 0, -1
+		lastPct, lastMove := -1, 0
 		for ; sideCtx.Err() == nil; iter++ {
 			pct := int(w.submitted.Load() * 100 / int64(total))
+			if pct != lastPct {
+				lastPct, lastMove = pct, iter
+			}
 			all := true
 			for i, a := range acts {
 				if doneActs[i] {
@@ -771,7 +775,16 @@ func Run(plan Plan, watchdog time.Duration) (res *Result) {
 			if all {
 				return
 			}
-			time.Sleep(200 * time.Microsecond)
+			// poll quickly while the producers make progress; when they are stuck (e.g. blocked on
+			// a full buffer) back off, or 30 virtual minutes of 200us timers cost minutes of real time
+			switch idle := iter - lastMove; {
+			case idle > 3000:
+				time.Sleep(time.Second)
+			case idle > 1500:
+				time.Sleep(20 * time.Millisecond)
+			default:
+				time.Sleep(200 * time.Microsecond)
+			}
 		}
 	}()
 
